@@ -423,6 +423,11 @@ class MHist(Monitor):
                     self._flag(w, arn, "second_started", "ExecutionStarted at position %d" % (i + 1))
                 if t in ("ExecutionSucceeded", "ExecutionFailed"):
                     self.term[arn] = i
+                    if t == "ExecutionSucceeded" and not self.failure_seen.get(arn):
+                        # an execution in which nothing failed, timed out or was aborted has logged the completion of everything it scheduled
+                        for fam, nb in sorted((self.bal.get(arn) or {}).items()):
+                            if nb > 0:
+                                self._flag(w, arn, "scheduled_without_completion", "%d %sScheduled event(s) without %sSucceeded in an execution that succeeded without any failure" % (nb, fam, fam), what=fam)
                 # a task's completion is logged after its scheduling: at every prefix completions never outnumber schedulings
                 bal = self.bal.setdefault(arn, {"Task": 0, "LambdaFunction": 0})
                 for fam in ("Task", "LambdaFunction"):
